@@ -483,7 +483,7 @@ def selectCall (isVariadic ellipsis : Bool) : List CallArm → CallKind
     type `arg` -/
 inductive CAGuard where
   | spreadArg      -- spread: hasVariadicArgs && i == len(child)-1 — this argument is the slice followed by `...`
-  | ellipsisCall   -- hasVariadicArgs: the call has an ellipsis (whatever the argument) — the source before 449969c
+  | ellipsisCall   -- hasVariadicArgs: the call has an ellipsis (whatever the argument) — the source before 5b28270
   | ifaceSrc       -- isInterfaceSrc(arg) && (!isEmptyInterface(arg) || len(c.typ.method) > 0)
   | ifaceBin       -- isInterfaceBin(arg): a host interface
   | funcSrc        -- isFuncSrc(arg)
